@@ -5,12 +5,13 @@ Every field of the model's state names the Go field(s) it stands for; `maskData 
 iff `p` selects all of them and resets it to its zero value otherwise.  Then
 
     clone     = maskData cloneOK
-    marshal   = maskData marshalOK
+    marshal   = wrapTimes ∘ maskData marshalOK   (instants are written as int64 UnixNano: out-of-range ones wrap)
     unmarshal = rekey ∘ maskData unmarshalOK     (unmarshal rebuilds the two name-keyed maps
                                                   from the names of their values)
     snapshot  = marshal ∘ clone,   restore = unmarshal
 -/
 import OG.Meta.Model
+import OG.Meta.Wire
 import OG.C15.Table
 
 namespace OG.C15
@@ -136,8 +137,13 @@ its own name. -/
 def rekey (d : Data) : Data :=
   { d with databases := d.databases.map fun (_, db) => (db.name, { db with rps := db.rps.map fun (_, r) => (r.name, r) }) }
 
+/-- `MarshalTime` is `t.UnixNano()`: the start / end of a shard or index group that lies outside
+the int64 nanosecond range (a group created for an instant within one duration of
+`math.MinInt64`) is written *wrapped around* (finding `group_start_before_int64_range`). -/
+def wrapTimes (d : Data) : Data := OG.Meta.Wire.canon d
+
 def clone (d : Data) : Data := maskData cloneOK d
-def marshal (d : Data) : Data := maskData marshalOK d
+def marshal (d : Data) : Data := wrapTimes (maskData marshalOK d)
 def unmarshal (d : Data) : Data := rekey (maskData unmarshalOK d)
 
 /-- `storeFSM.Snapshot` (deep copy) followed by `Persist` (marshal) -/
